@@ -21,6 +21,10 @@
                 [k |-> "null"] [k |-> "bool", b] [k |-> "int", i]
                 [k |-> "float", f] [k |-> "str", s] [k |-> "arr", a : Seq]
                 [k |-> "obj", o : [STRING -> value]]
+                [k |-> "file", p, n, c]  the file named n written by the
+                join/main job (c = -1) or by chunk c of stage instance p; the
+                real path is decided by the runtime.  [k |-> "fstr", ...]: a
+                string-typed value holding such a path
    expressions  [k |-> "lit", v] [k |-> "self", id, path] [k |-> "ref", call,
                 out, path] [k |-> "arrx", es] [k |-> "objx", fs : Seq [n, e]]
                 [k |-> "split", e] [k |-> "none"]
@@ -36,6 +40,8 @@ VInt(x) == [k |-> "int", i |-> x]
 VStr(x) == [k |-> "str", s |-> x]
 VArr(x) == [k |-> "arr", a |-> x]
 VObj(x) == [k |-> "obj", o |-> x]
+VFile(inst, name, c) == [k |-> "file", p |-> inst, n |-> name, c |-> c]
+VFStr(inst, name, c) == [k |-> "fstr", p |-> inst, n |-> name, c |-> c]
 IsNull(v) == v.k = "null"
 (* null, an empty collection, or a collection of such: what a disabled or empty
    mapped call may look like *)
@@ -124,8 +130,19 @@ IsStage(p, name) == HasName(p.stages, name)
 EmptyRes == [dis |-> TRUE, outs |-> <<>>, pv |-> <<>>, inv |-> <<>>, allpv |-> {}]
 
 (* Behaviour rules of stages (uninterpreted-but-known functions). *)
-RuleVal(r, args, inst, oname, ci, couts) ==
+(* fc: the chunk number recorded in file values (-1: the stage's own job) *)
+RuleVal(r, args, inst, oname, ci, couts, fc) ==
     CASE r.k = "const" -> r.v
+      [] r.k = "file"  -> VFile(inst, oname, fc)
+      [] r.k = "files" -> VArr(<<VFile(inst, oname \o "_0", fc), VFile(inst, oname \o "_1", fc)>>)
+      [] r.k = "fmap"  -> VObj(("a" :> VFile(inst, oname \o "_a", fc)) @@ ("b" :> VFile(inst, oname \o "_b", fc)))
+      [] r.k = "fstr"  -> VFStr(inst, oname \o ".dat", fc)
+      [] r.k = "fmstruct" -> VObj(("a" :> VObj(("f" :> VFile(inst, oname \o "_a", fc)) @@ ("n" :> VInt(1))))
+                                  @@ ("b" :> VObj(("f" :> VFile(inst, oname \o "_b", fc)) @@ ("n" :> VInt(2)))))
+      [] r.k = "fastruct" -> VArr(<<VObj(("f" :> VFile(inst, oname \o "_0", fc)) @@ ("n" :> VInt(1))),
+                                    VObj(("f" :> VFile(inst, oname \o "_1", fc)) @@ ("n" :> VInt(2)))>>)
+      [] r.k = "dir"   -> VFile(inst, oname \o ".d", fc)      \* a directory holding two files
+      [] r.k = "fstruct" -> VObj(("f" :> VFile(inst, oname \o "_f", fc)) @@ ("n" :> VInt(7)))
       [] r.k = "echo"  -> args[r.src]
       [] r.k = "inst"  -> VStr(inst \o ":" \o oname)
       [] r.k = "ci"    -> VInt(ci)
@@ -159,7 +176,7 @@ IdxOf(cidx, dims) == IF cidx = <<>> THEN <<>>
                      ELSE (IF Head(cidx).d \in dims THEN <<Head(cidx).k>> ELSE <<>>)
                           \o IdxOf(Tail(cidx), dims)
 
-StageRun(p, st, args, path, cidx, deps, dims) ==
+StageRun(p, st, args, path, cidx, deps, dims, vol) ==
     LET idx == IdxOf(cidx, dims)
         inst == InstId(path, idx)
         n == ChunkCount(st, args)
@@ -169,19 +186,20 @@ StageRun(p, st, args, path, cidx, deps, dims) ==
         couts == [i \in 1..n |->
                     IF st.split /\ st.couts # <<>>
                     THEN [x \in {st.couts[j].n : j \in DOMAIN st.couts} |->
-                            RuleVal(Lookup(st.couts, x).r, cargs(i), inst, x, i - 1, <<>>)]
+                            RuleVal(Lookup(st.couts, x).r, cargs(i), inst, x, i - 1, <<>>, i - 1)]
                     ELSE IF st.split
                     \* no declared chunk outputs: the chunks fill in the stage-level
                     \* outputs (here: every non-collecting output gets the chunk index)
                     THEN [x \in {st.rules[j].n : j \in {k \in DOMAIN st.rules : st.rules[k].r.k # "collect"}} |->
                             VInt(i - 1)]
                     ELSE [x \in {st.rules[j].n : j \in DOMAIN st.rules} |->
-                            RuleVal(Lookup(st.rules, x).r, args, inst, x, 0, <<>>)]]
+                            RuleVal(Lookup(st.rules, x).r, args, inst, x, 0, <<>>, -1)]]
         outs == IF st.split
                 THEN [x \in {st.rules[j].n : j \in DOMAIN st.rules} |->
-                        RuleVal(Lookup(st.rules, x).r, args, inst, x, 0, couts)]
+                        RuleVal(Lookup(st.rules, x).r, args, inst, x, 0, couts, -1)]
                 ELSE couts[1]
-        base == [inst |-> inst, call |-> path, idx |-> idx, nchunks |-> n, deps |-> deps, ghost |-> FALSE]
+        base == [inst |-> inst, call |-> path, idx |-> idx, nchunks |-> n, deps |-> deps, ghost |-> FALSE,
+                 stage |-> st.name, vol |-> vol, svol |-> st.volatile]
         inv == (IF st.split THEN <<base @@ [kind |-> "split", chunk |-> 0, args |-> VObj(args),
                                             couts |-> Null, outs |-> Null]>> ELSE <<>>)
                \o [i \in 1..n |-> base @@ [kind |-> "main", chunk |-> i - 1, args |-> VObj(cargs(i)),
@@ -248,7 +266,7 @@ EvalCallable(p, name, A, path, ctx) ==
         \* Deps an under-approximation of the true data dependencies.
         StageRun(p, ByName(p.stages, name), A.v, path, ctx.idx,
                  UNION {A.pv[x] : x \in {y \in DOMAIN A.pv : ~Nullish(A.v[y])}} \cup ctx.extra,
-                 UNION {A.dm[x] : x \in DOMAIN A.dm} \cup ctx.xdm)
+                 UNION {A.dm[x] : x \in DOMAIN A.dm} \cup ctx.xdm, ctx.vol)
     ELSE EvalPipe(p, ByName(p.pipelines, name), A, path, ctx)
 
 EvalPipe(p, pl, A, path, ctx) ==
@@ -262,7 +280,15 @@ EvalPipe(p, pl, A, path, ctx) ==
         outs |-> [x \in onames |-> Conv(p, Lookup(pl.outs, x).t, rets[ri(x)].v)],
         pv |-> [x \in onames |-> rets[ri(x)].pv],
         dm |-> [x \in onames |-> rets[ri(x)].dm],
-        inv |-> done.inv, insts |-> {done.inv[i].inst : i \in DOMAIN done.inv}, wk |-> done.wk]
+        \* the retain declaration of the pipeline: a pseudo invocation whose
+        \* "arguments" are the retained values (removed again by the table writers)
+        inv |-> done.inv \o (IF pl.retain = <<>> THEN <<>>
+                              ELSE LET rv == Tup([i \in DOMAIN pl.retain |-> Eval(p, done.env, pl.retain[i]).v], 1, Len(pl.retain))
+                                   IN <<[inst |-> InstId(path, [i \in DOMAIN ctx.idx |-> ctx.idx[i].k]), call |-> path,
+                                         idx |-> <<>>, nchunks |-> 0, deps |-> {}, ghost |-> FALSE, stage |-> "", svol |-> "",
+                                         vol |-> FALSE, kind |-> "retain", chunk |-> 0, args |-> VArr(rv),
+                                         couts |-> Null, outs |-> Null]>>),
+        insts |-> {done.inv[i].inst : i \in DOMAIN done.inv}, wk |-> done.wk]
 
 (* evaluate calls k..n of pipeline pl in order, threading env and invocations *)
 EvalCalls(p, pl, env, k, path, ctx) ==
@@ -296,7 +322,7 @@ EvalCall(p, pl, env, c, path, ctx) ==
              insts |-> {inv[i].inst : i \in DOMAIN inv},
              allpv |-> IF dis THEN dv.pv \cup ctx.extra ELSE UNION {opv[o] : o \in DOMAIN opv},
              alldm |-> UNION {odm[o] : o \in DOMAIN odm} \cup (IF dis THEN dv.dm \cup ctx.xdm ELSE {})]
-        inner == [ctx EXCEPT !.extra = ctx.extra \cup dv.pv, !.xdm = ctx.xdm \cup dv.dm]
+        inner == [ctx EXCEPT !.extra = ctx.extra \cup dv.pv, !.xdm = ctx.xdm \cup dv.dm, !.vol = c.vol]
     IN
     IF c.mode = "none" THEN
         LET A == [v |-> [x \in pnames |-> Conv(p, ptype(x), bs[bi(x)].v)],
@@ -318,7 +344,11 @@ EvalCall(p, pl, env, c, path, ctx) ==
                     ELSE SetToSortedSeq(DOMAIN first.o)
             elemOf(v, key) == IF c.mode = "array" THEN v.a[key] ELSE v.o[key]
             keystr(key) == IF c.mode = "array" THEN ToString(key - 1) ELSE key
-            spv == UNION {bs[i].pv : i \in splits}
+            \* the number of forks (and the keys) comes from the collections the call is
+            \* mapped over; with several zipped collections the runtime may take it from
+            \* any one of them (a literal one needs no producer at all), so only the
+            \* producers common to all of them are demanded
+            spv == {x \in UNION {bs[i].pv : i \in splits} : \A i \in splits : x \in bs[i].pv}
             sdm == UNION {bs[i].dm : i \in splits}
             one(key) ==
                 LET A == [v |-> [x \in pnames |->
@@ -388,8 +418,40 @@ Run(p) ==
         pn == {p.top.args[i].n : i \in DOMAIN p.top.args}
         A == [v |-> [x \in pn |-> Conv(q, Lookup(pl.ins, x).t, Lookup(p.top.args, x).e.v)],
               pv |-> [x \in pn |-> {}], dm |-> [x \in pn |-> {}]]
-        r == EvalPipe(q, pl, A, pl.name, [idx |-> <<>>, extra |-> {}, xdm |-> {}])
+        r == EvalPipe(q, pl, A, pl.name, [idx |-> <<>>, extra |-> {}, xdm |-> {}, vol |-> FALSE])
     IN [r EXCEPT !.inv = Dedup(r.inv, {})]
+
+(* Files (C04, C13, C14) *)
+RECURSIVE FilesIn(_)
+FilesIn(v) == CASE v.k \in {"file", "fstr"} -> {[v EXCEPT !.k = "file"]}
+                [] v.k = "arr" -> UNION {FilesIn(v.a[i]) : i \in DOMAIN v.a}
+                [] v.k = "obj" -> UNION {FilesIn(v.o[x]) : x \in DOMAIN v.o}
+                [] OTHER -> {}
+JobKey(iv) == iv.inst \o "/" \o iv.kind \o "/" \o ToString(iv.chunk)
+(* per file: who writes it, which jobs are handed it, whether the top-level
+   outputs or a retain declaration name it *)
+FileFacts(p, r) ==
+    LET real == {i \in DOMAIN r.inv : r.inv[i].kind # "retain" /\ ~r.inv[i].ghost}
+        written == UNION {IF IsNull(r.inv[i].outs) THEN {} ELSE
+                            {f \in FilesIn(r.inv[i].outs) : f.p = r.inv[i].inst
+                               /\ f.c = (IF r.inv[i].kind = "main" /\ r.inv[i].nchunks >= 0
+                                             /\ ByName(p.stages, r.inv[i].stage).split THEN r.inv[i].chunk ELSE -1)}
+                          : i \in real}
+        retained == UNION {FilesIn(r.inv[i].args) : i \in {j \in DOMAIN r.inv : r.inv[j].kind = "retain"}}
+                    \cup UNION {LET st == ByName(p.stages, r.inv[i].stage) IN
+                                IF IsNull(r.inv[i].outs) \/ (st.split /\ r.inv[i].kind # "join") THEN {}
+                                ELSE UNION {FilesIn(r.inv[i].outs.o[st.retain[k]]) : k \in DOMAIN st.retain}
+                                : i \in real}
+        top == FilesIn(VObj(r.outs))
+        users(f) == {i \in real : f \in FilesIn(r.inv[i].args)
+                                   \/ (r.inv[i].kind = "join" /\ f \in FilesIn(r.inv[i].couts))}
+        writer(f) == CHOOSE i \in real : ~IsNull(r.inv[i].outs) /\ f \in FilesIn(r.inv[i].outs) /\ f.p = r.inv[i].inst
+                        /\ f.c = (IF r.inv[i].kind = "main" /\ ByName(p.stages, r.inv[i].stage).split THEN r.inv[i].chunk ELSE -1)
+    IN SetToSortedSeq({[f |-> f, writer |-> JobKey(r.inv[writer(f)]),
+                        users |-> SetToSortedSeq({JobKey(r.inv[i]) : i \in users(f)}),
+                        top |-> f \in top, retained |-> f \in retained,
+                        vol |-> r.inv[writer(f)].vol,
+                        svol |-> ByName(p.stages, r.inv[writer(f)].stage).volatile] : f \in written})
 
 Invocations(p) == Run(p).inv
 TopOuts(p) == VObj(Run(p).outs)
